@@ -291,13 +291,35 @@ def well_formed(griffe, sections) -> str | None:
     return None
 
 
-def real_parse(griffe, parents: Parents, style: str, text: str, parent_kind: str, options: dict, timeout: float = 5.0):
+SHARED_OPTIONS = {"warn_unknown_params": True}      # accepted by the three parsers; the loaders hand ONE options dict to every docstring
+
+
+def flat(sections) -> list:
+    """Deep, comparable projection of a parse result (history clause: a second parse must return the same)."""
+    out = []
+    for s in sections:
+        v = s.value
+        if isinstance(v, list):
+            v = [tuple(sorted((k, str(x)) for k, x in el.as_dict().items())) if hasattr(el, "as_dict") else (str(el[0]), el[1]) for el in v]
+        elif hasattr(v, "as_dict"):
+            v = tuple(sorted((k, str(x)) for k, x in v.as_dict().items()))
+        out.append((s.kind.value, s.title, v))
+    return out
+
+
+def real_parse(griffe, parents: Parents, style: str, text: str, parent_kind: str, options: dict, timeout: float = 5.0, history: int = 0):
     """One guarded parse of the real code with every C12 clause that needs no model evaluated.
+
+    The docstring is created the way the loaders create it: with a parser_options dict shared with other docstrings.
+    history >= 1: the same docstring is parsed a second time with the same options; history >= 2: and then once without options,
+    against a fresh docstring parsed with the configured options - results must not depend on what was parsed before.
 
     Returns dict(exc, frames, sections, modified, unstable, docstring)."""
     parent = parents.get(parent_kind)
-    d = griffe.Docstring(text, lineno=1, endlineno=1 + text.count("\n"), parent=parent)
+    shared = dict(SHARED_OPTIONS)
+    d = griffe.Docstring(text, lineno=1, endlineno=1 + text.count("\n"), parent=parent, parser=style, parser_options=shared)
     out = {"exc": None, "excobj": None, "frames": None, "sections": None, "modified": None, "unstable": d.value != text, "value": d.value}
+    before_parent_ok = True
     before = docstring_snapshot(d)
     res, exc = guarded_confirmed(lambda: d.parse(style, **options), timeout)
     if exc is not None:
@@ -310,6 +332,21 @@ def real_parse(griffe, parents: Parents, style: str, text: str, parent_kind: str
     after = docstring_snapshot(d)
     if after != before:
         out["modified"] = f"docstring attributes changed: {sorted(k for k in set(before) | set(after) if before.get(k) != after.get(k))}"
+    elif shared != SHARED_OPTIONS or d.parser_options is not shared:
+        out["modified"] = f"the options dict shared between docstrings changed: {shared}"
+    elif history and exc is None:
+        again, exc2 = guarded_confirmed(lambda: d.parse(style, **options), timeout)
+        if exc2 is not None or flat(again) != flat(res):
+            got = repr(exc2) if exc2 is not None else [s.kind.value for s in again]
+            out["modified"] = f"a second parse of the same docstring with the same options returned {got}, not what the first returned"
+        elif history > 1:
+            plain, exc3 = guarded_confirmed(lambda: d.parse(), timeout)
+            fresh = griffe.Docstring(text, lineno=1, endlineno=1 + text.count("\n"), parent=parent, parser=style, parser_options=dict(SHARED_OPTIONS))
+            ref, exc4 = guarded_confirmed(lambda: fresh.parse(), timeout)
+            if (exc3 is None) != (exc4 is None) or (exc3 is None and flat(plain) != flat(ref)):
+                out["modified"] = "parse() with the configured options depends on the options of an earlier parse(**options) of the same docstring"
+        if docstring_snapshot(d) != before or shared != SHARED_OPTIONS:
+            out["modified"] = out["modified"] or "docstring attributes / shared options changed by a later parse"
     elif parent is not None and parents.changed():
         out["modified"] = "parent object tree changed"
         parents.build()
